@@ -35,8 +35,8 @@ HolePairs(h, named) ==
 HolesPairs(hs, named) == IF Len(hs) = 0 THEN <<>> ELSE HolePairs(hs[1], named) \o HolesPairs(Tail(hs), named)
 PartsPairs(ps) == IF Len(ps) = 0 THEN <<>> ELSE HolesPairs(ps[1].holes, ps[1].named) \o PartsPairs(Tail(ps))
 
-AllCols == <<"c1", "c2", "c3", "c4", "s1", "s2", "s3", "s4">>
-ZeroTok(col) == IF col \in {"c1", "c2", "c3", "c4"} THEN "i:0" ELSE "s:"
+AllCols == <<"parent_id", "other_id", "c1", "c2", "c3", "c4", "s1", "s2", "s3", "s4">>
+ZeroTok(col) == IF col \in {"parent_id", "other_id"} THEN NullTok ELSE IF col \in {"c1", "c2", "c3", "c4"} THEN "i:0" ELSE "s:"
 PayVal(pay, col) == IF \E i \in DOMAIN pay : pay[i].col = col
                     THEN pay[CHOOSE i \in DOMAIN pay : pay[i].col = col].v ELSE ZeroTok(col)
 RowPairs(pay) == [i \in DOMAIN AllCols |-> P(AllCols[i], PayVal(pay, AllCols[i]))]
@@ -44,7 +44,7 @@ PayPairs(pay) == [i \in DOMAIN pay |-> P(pay[i].col, pay[i].v)]
 
 \* target: "q" / "d" dummy dialects with the default clause builders, "real" SQLite
 FinPairs(fin, target) ==
-  CASE fin.kind \in {"update", "updates", "updates_map"} -> PayPairs(fin.pay)
+  CASE fin.kind \in {"update", "updates", "updates_map", "update_returning"} -> PayPairs(fin.pay)
     [] fin.kind = "create" -> RowPairs(fin.pay)
     [] fin.kind = "create_slice" -> RowPairs(fin.pay) \o RowPairs(fin.pay2)
     [] fin.kind = "create_map" -> PayPairs(fin.pay)
